@@ -148,6 +148,20 @@ CHECKS = {
                 "finite difference; a model that only exists for the uninterpreted functions is reported inconclusive.",
         "technique": SOLVER_TECH + "; NRA with uninterpreted elementary functions",
     },
+    "C11": {
+        "level": "model_checking",
+        "text": "Bounded symbolic model checking over the reals: flatten, ConstantFoldingMapper, CommutativeConstantFoldingMapper, "
+                "TermCollector and expand/distribute are run by the real code on every tree of a polynomial/rational grammar "
+                "(depth <= 2 exhaustive over 14 kinds with constants in every slot, depth 3 reduced, hand-picked cancellation "
+                "cases); input and output are evaluated at a symbolic point and z3 (NRA) proves equality for every environment "
+                "on every path where the input evaluates; for flatten and the folders one constant inside the tree is symbolic "
+                "as well. Normal-form clauses are path assertions; for the like-terms clause z3 decides which pairs of "
+                "skeleton polynomials are equal as functions and their expansions must have equal term multisets.",
+        "design_ref": "DESIGN.md §4 C11",
+        "note": "Trusted: the evaluator (C02, with integer constants read as exact rationals), z3's nonlinear real arithmetic. "
+                "Term collection is exercised on its documented fragment only.",
+        "technique": SOLVER_TECH + "; NRA; z3 as the function-equality oracle for the like-terms clause",
+    },
 }
 
 _PENDING = "check not built yet in this session (the design in DESIGN.md applies; will be claimed once its harness exists)"
